@@ -53,6 +53,11 @@ TRUSTED = [
     'tempfile.mkstemp / shutil.copy*,move,copyfileobj (no sendfile fast path, 256-byte chunks) / zipfile.ZipFile.'
     '__init__,open,writestr,write,close / io.open as used by zipfile (low-level positions) / backend.put,delete): a '
     'primitive the code performs through another API is not a fault position',
+    'environment failures (round 4): RLIMIT_NOFILE is set to 0 for the duration of ONE opening primitive (restored '
+    'right after it) - the harness checks that the primitive did raise EMFILE; identifiers of 247..251 characters / '
+    'with a path separator are refused by the file system of the scratch directory (NAME_MAX 255) - checked per run',
+    'caching wrapper: observed through the directory / archive AND through the wrapper object (its cache of texts is '
+    'copied before and put back after the observation); a difference is a violation',
     'harness state restore between the runs of one case (directory copy + shallow copy of the attributes of the '
     'PulseStorage and backend objects), cross-checked on a sample of runs per case against a run from scratch',
     'kill runs: the directory content copied at a position (after flushing what the flush mode says) is what a '
@@ -1191,27 +1196,33 @@ MANIFEST = {
     'level_text': 'Proof (Coq, unbounded in storage content, template size, crash position and history length) over a '
                   'step model of the three storage backends and of PulseStorage store / overwrite / delete with its '
                   'transaction buffer: after every prefix of the primitive steps - whether the failing primitive raises '
-                  'and the clean-up clauses run, or the process is killed and nothing else runs - the archive exists, '
-                  'every listed identifier loads recursively, every identifier holds old or new content, and nothing '
-                  'changes before the first publishing step (C11_crash_safe, C11_crash_safe_kill_or_raise; round 3: '
-                  'C11_crash_safe_tx under ONE weaker guard on the transaction buffer); the hypotheses are an invariant '
-                  'of histories of completed / failed / killed operations (C11_history_safe, C11_history_safe_tx).  The '
-                  'model is tied to /repo on every run by fault injection at every mutating (on a share of the cases '
-                  'also reading, and low-level archive-writer) primitive of the real backends, by kill runs (directory '
-                  'copied before every position, the process really killed at sampled positions, several flush modes, '
-                  'observation and follow-up operation by new objects) and a follow-up operation after every failure.',
-    'level_note': 'Full proof under executable guards: guard_C11_tx (the buffer the encoder builds is duplicate free and '
-                  'every reference goes to an earlier entry or to an old identifier from which nothing written is '
-                  'reachable), implied by the two round-2 guards guard_C11_dup_id + guard_C11_cycle and strictly weaker '
-                  '(theorems).  guard_C11_cycle is exact inside guard_C11_dup_id (C11_cycle_guard_exact: a rejected '
-                  'overwrite, once completed, leaves a reference cycle); outside guard_C11_dup_id the buffer guard is '
-                  'sufficient, not necessary.  The unchanged code violates the property outside the guards (refutation '
-                  'theorems; known findings dup-id-in-transaction and overwrite-creates-cycle).  Only the order of system '
-                  'calls is modelled (no fsync / power-loss reordering); failures / kills happen at hooked positions '
-                  'only.  Trusted: Coq kernel, the harness fault injector / state restore / directory-copy kill runs '
-                  '(each cross-checked on samples) and document parser, CPython os / zipfile, atomicity of os.replace.',
+                  'and the clean-up clauses run, or the process is killed and nothing else runs - every identifier '
+                  'holds old or new content and nothing changes before the first publishing step WITHOUT ANY GUARD, and '
+                  '"the archive exists and every listed identifier loads recursively" holds at every interruption point '
+                  'IF AND ONLY IF the operation passes the executable guard guard2_exact (C11_repaired_crash_safe_exact; '
+                  'C11_crash_safe_exact for the code before the round-4 repair).  For the code as it is now (encoder '
+                  'repaired in round 4, repo a5bca40: model Repair.v) the cycle guard ALONE implies it for every template '
+                  '(C11_repaired_crash_safe: the former guard_C11_dup_id is gone); the hypotheses are an invariant of '
+                  'histories of completed / failed / killed operations (C11_repaired_history_safe).  The model is tied to '
+                  '/repo on every run by fault injection at every mutating (on a share of the cases also reading, and '
+                  'low-level archive-writer) primitive of the real backends, by failures produced by the operating '
+                  'system itself (EMFILE at every opening primitive, ENAMETOOLONG / ENOENT for identifiers the file '
+                  'system refuses), by kill runs (directory copied before every position, the process really killed at '
+                  'sampled positions, several flush modes, observation and follow-up operation by new objects) and a '
+                  'follow-up operation after every failure.',
+    'level_note': 'Full proof; one known finding left: overwrite-creates-cycle (a stale cached object lets a completed '
+                  'overwrite close a reference cycle), excluded by guard2_cycle / guard2_exact; the exact guard is '
+                  'necessary and sufficient for clause (a), so nothing else is excluded.  dup-id-in-transaction was '
+                  'REPAIRED in round 4 (C11_repair_rejects, C11_repaired_children_before_parents).  The model answers '
+                  'EClash for an object met inside itself (impossible for immutable template trees).  Only the order of '
+                  'system calls is modelled (no fsync / power-loss reordering); failures / kills happen at hooked '
+                  'positions only; temporary files a killed process leaves behind are never listed and never cleaned '
+                  '(in the model state and in the kill runs; not a clause of the property).  Trusted: Coq kernel, the '
+                  'harness fault injector / state restore / directory-copy kill runs (each cross-checked on samples) and '
+                  'document parser, CPython os / zipfile, atomicity of os.replace.',
     'technique': 'Coq proof (induction over the primitive step list, the transaction buffer and the template; rank / '
-                 'pigeonhole argument for recursive loadability; connectivity invariant of the encoder for exactness; '
-                 'invariant over histories) + fault-injection and kill-run correspondence check',
+                 'pigeonhole argument for recursive loadability; registry invariant of the repaired encoder; boundary '
+                 'lemma "every prefix of the buffer is visible at some interruption point" for exactness; invariant '
+                 'over histories) + fault-injection, environment-failure and kill-run correspondence check',
     'design_ref': 'DESIGN.md §5 C11',
 }
